@@ -6,7 +6,8 @@
    size N0, and every fuel (an out-of-fuel run is not a return of Engine.price and is excluded).
    `price_run ... 0 fuel L0 N0` is the repaired Engine.price (a new level starts with Nl = 0). *)
 From Coq Require Import List ZArith QArith Qabs Bool.
-From RV Require Import Base.QB Model.McStats Model.Mlmc Proofs.C07_StatsLemmas Proofs.C05_Mlmc.
+From Coq Require Import Permutation.
+From RV Require Import Base.QB Model.McStats Model.Mlmc Model.MlmcVec Proofs.C07_StatsLemmas Proofs.C05_Mlmc Proofs.C05_Vec.
 Import ListNotations.
 Open Scope Q_scope.
 
@@ -66,6 +67,87 @@ Theorem C05_fixed_level_variant :
     /\ mlmc_price vs == sum_level_means sample df notional 0 vs.
 Proof. exact fixed_level_variant. Qed.
 
+(* ---------------------------------------------------------------- wave 5: vector payoffs, control variates, multi-process merge
+   Model/MlmcVec.v: the engine stores for every path ALL payoff components and the rows of all controls; after every pass
+   compute_coefficients_mlmc replaces the with_cv rows.  For ALL raw-sample / payoff / control / price / regression-rule
+   (bst) / cost / allocation / convergence / np.empty oracles, all dimensions d, numbers of controls nc, L0, N0, fuel. *)
+
+(* at every return every level holds, for every payoff component and every control, exactly the N_l simulated rows in order,
+   and the with_cv rows are the adjustment of exactly those rows with coefficients computed from exactly those rows *)
+Theorem C05_vec_rows_are_samples :
+  forall sample pay d ctl cnot nc prices bst df notional cost alloc conv garbA garbB level_max fuel L0 N0,
+    match gprice_run (srow_of sample pay d ctl cnot nc df notional) (coef_c d bst) (adj_c d prices) (zero_srow d nc)
+                     (repeat zero_row d) cost alloc conv garbA garbB level_max fuel L0 N0 with
+    | Converged s | Fallthrough s =>
+        all_ix (fun l v => gcnt v = gN v /\
+                           grows v = map (srow_of sample pay d ctl cnot nc df notional l) (seq 0 (gN v)) /\
+                           gcv v = derive (coef_c d bst) (adj_c d prices) l
+                                          (map (srow_of sample pay d ctl cnot nc df notional l) (seq 0 (gN v)))) 0 (glevels s)
+    | OutOfFuel => True
+    end.
+Proof. exact vec_rows_are_samples. Qed.
+
+(* with controls: entry (i, j) of the with_cv rows is Y_i - b (X_i - price) (Model/McStats.v cv_adj, fine and coarse side each
+   with its own b = bst of the columns of exactly the simulated rows), and the column means price() sums are the textbook
+   control-variate estimators  mean Y - b (mean X - price)  over exactly the N_l simulated rows *)
+Theorem C05_cv_rows_textbook :
+  forall sample pay d ctl cnot nc prices bst df notional cost alloc conv garbA garbB level_max fuel L0 N0,
+    match gprice_run (srow_of sample pay d ctl cnot nc df notional) (coef_c d bst) (adj_c d prices) (zero_srow d nc)
+                     (repeat zero_row d) cost alloc conv garbA garbB level_max fuel L0 N0 with
+    | Converged s | Fallthrough s => all_ix (cv_level_ok sample pay d ctl cnot nc prices bst df notional) 0 (glevels s)
+    | OutOfFuel => True
+    end.
+Proof. exact cv_rows_textbook. Qed.
+
+(* every payoff component j < d of the vector engine IS a run of the scalar engine of Model/Mlmc.v on the payoff pay_j (same
+   control flow, N_l, counts, costs, passes; rows = component j of the stored rows): all theorems above about component 0
+   hold for every component; in particular the component-j estimator *)
+Theorem C05_vec_component_is_scalar_run :
+  forall sample pay d ctl cnot nc prices bst df notional cost alloc conv garbA garbB level_max j fuel L0 N0, (j < d)%nat ->
+    pout (pr_j j) (gprice_run (srow_of sample pay d ctl cnot nc df notional) (coef_c d bst) (adj_c d prices) (zero_srow d nc)
+                              (repeat zero_row d) cost alloc conv garbA garbB level_max fuel L0 N0)
+    = price_run (smp_j sample pay j) cost alloc conv (fun l n => pr_j j (garbA l n)) df notional level_max 0 fuel L0 N0.
+Proof. exact component_is_scalar_run. Qed.
+
+Theorem C05_vec_component_price :
+  forall sample pay d ctl cnot nc prices bst df notional cost alloc conv garbA garbB level_max j fuel L0 N0 s, (j < d)%nat ->
+    (gprice_run (srow_of sample pay d ctl cnot nc df notional) (coef_c d bst) (adj_c d prices) (zero_srow d nc)
+                (repeat zero_row d) cost alloc conv garbA garbB level_max fuel L0 N0 = Converged s \/
+     gprice_run (srow_of sample pay d ctl cnot nc df notional) (coef_c d bst) (adj_c d prices) (zero_srow d nc)
+                (repeat zero_row d) cost alloc conv garbA garbB level_max fuel L0 N0 = Fallthrough s) ->
+    mlmc_price (map (plev (pr_j j)) (glevels s))
+      == sum_level_means (smp_j sample pay j) df notional 0 (map (plev (pr_j j)) (glevels s))
+    /\ forall x, snd (mk_row df notional 0 x) == 0.
+Proof. exact component_price. Qed.
+
+(* fixed-level variant of the vector / control-variate engine *)
+Theorem C05_vec_fixed_level_variant :
+  forall (A B C : Type) (rowof : nat -> nat -> A) (coef : nat -> list A -> C) (adj : nat -> C -> A -> B) zA zB cost garbA garbB L0 Lmax N vs,
+    gfixed_run rowof coef adj zA zB cost garbA garbB L0 Lmax N = Some vs ->
+    length vs = S Lmax /\ all_ix (glev_done rowof coef adj) 0 vs /\ Forall (fun v => gN v = N) vs.
+Proof. intros A B C. exact (@gfixed_rows_are_samples A B C). Qed.
+
+(* multi-process branch: whatever assignment sigma of the level's draws to the iteration indices the pool produces, at every
+   return level l holds in iteration order the rows of the draws sigma l 0 .. sigma l (N_l - 1) and N_l = number of paths
+   simulated; if every draw was handed to exactly one iteration (sigma l permutes 0 .. N_l - 1) the stored rows are a
+   permutation of the simulated samples ... *)
+Theorem C05_mp_rows_permutation :
+  forall (A B C : Type) (rowat : nat -> Q * Q -> A) sample sigma (coef : nat -> list A -> C) (adj : nat -> C -> A -> B)
+         zA zB cost alloc conv garbA garbB level_max fuel L0 N0,
+    match gprice_run (mp_rowof rowat sample sigma) coef adj zA zB cost alloc conv garbA garbB level_max fuel L0 N0 with
+    | Converged s | Fallthrough s => all_ix (mp_level_ok rowat sample sigma) 0 (glevels s)
+    | OutOfFuel => True
+    end.
+Proof. intros A B C. exact (@mp_rows_permutation A B C). Qed.
+
+(* ... and everything price() / mlmc_results report is invariant under a permutation of the rows of a level *)
+Theorem C05_results_permutation_invariant :
+  forall v w : lev, Permutation (lrows v) (lrows w) -> lcost v == lcost w -> lN v = lN w ->
+    mean (fines v) - mean (coarses v) == mean (fines w) - mean (coarses w)
+    /\ res_ml v == res_ml w /\ res_vl v == res_vl w /\ res_mean_level v == res_mean_level w
+    /\ res_var_level v == res_var_level w /\ res_kurtosis v == res_kurtosis w /\ res_cl v == res_cl w.
+Proof. exact results_perm_invariant. Qed.
+
 (* non-vacuity, and the behaviour before the repair (F-C05-1, fixed by d6e63ca on fix-mc) *)
 Example C05_nonvacuous_repaired :
   exists s v, w_run 0 = Converged s /\ nth_error (levels s) 3 = Some v /\
@@ -80,12 +162,41 @@ Example C05_phantom_sample_before_repair :
               lN v = 4%nat /\ lcnt v = 3%nat /\ nth 0 (lrows v) (1, 1) = zero_row.
 Proof. exact phantom_sample_before_repair. Qed.
 
+(* non-vacuity of the wave-5 theorems: a run with a 2-component payoff and one control that adds a level
+   (level 1 ends with 3 rows of 2 components and 3 adjusted rows) ... *)
+Definition w5_samples : list (list (Q * Q)) := [[(1, 0); (2, 0); (4, 0); (7, 0)]; [(3, 2); (5, 4); (9, 7); (2, 1)]; [(1, 1)]].
+Definition w5_run : outcome (gstate srow vrow) :=
+  vrun_tab 2 1 [1] w5_samples [1; 2; 4] [[3; 0]; [3; 3]; [3; 3]]%Z [false; true] 1 1 1 10 0 2.
+Example C05_vec_cv_nonvacuous :
+  exists s v, w5_run = Converged s /\ length (glevels s) = 2%nat /\ nth_error (glevels s) 1 = Some v /\ gN v = 3%nat /\
+              gcnt v = 3%nat /\ map (fun r => length (fst r)) (grows v) = [2; 2; 2]%nat /\ length (gcv v) = 3%nat /\
+              map (fun r => Qred (fst (comp 1 (fst r)))) (grows v) = [25 # 4; 41 # 4; 73 # 4].
+Proof. vm_compute. eexists. eexists. repeat split. Qed.
+(* ... and a pool that hands draw 1 to iteration 0 and draw 0 to iteration 1: the hypothesis of the permutation clause holds and
+   the stored rows are NOT in draw order *)
+Definition w5_sigma (l n : nat) : nat := match n with 0 => 1 | 1 => 0 | _ => n end%nat.
+Example C05_mp_nonvacuous :
+  Permutation (map (w5_sigma 0) (seq 0 3)) (seq 0 3) /\
+  exists s v, gprice_run (mp_rowof (fun l x => mk_row 1 1 l x) (tab_sample w5_samples) w5_sigma) (fun _ _ => tt) (fun _ _ _ => tt)
+                         zero_row tt (fun _ _ => 1) (tab_alloc [[3]]%Z) (tab_conv [true]) const_garbage (fun _ _ => tt) 0 5 0 3
+              = Converged s /\ nth_error (glevels s) 0 = Some v /\ map (fun r => Qred (fst r)) (grows v) = [2; 1; 4].
+Proof. split; [simpl; apply perm_swap|]. vm_compute. eexists. eexists. repeat split. Qed.
+
 Print Assumptions C05_rows_are_samples.
 Print Assumptions C05_price_is_sum_of_means.
 Print Assumptions C05_results_from_same_rows.
 Print Assumptions C05_cost_from_passes.
 Print Assumptions C05_engine_reuse.
 Print Assumptions C05_fixed_level_variant.
+Print Assumptions C05_vec_rows_are_samples.
+Print Assumptions C05_cv_rows_textbook.
+Print Assumptions C05_vec_component_is_scalar_run.
+Print Assumptions C05_vec_component_price.
+Print Assumptions C05_vec_fixed_level_variant.
+Print Assumptions C05_mp_rows_permutation.
+Print Assumptions C05_results_permutation_invariant.
 Print Assumptions C05_nonvacuous_repaired.
 Print Assumptions C05_stale_manager_before_repair.
 Print Assumptions C05_phantom_sample_before_repair.
+Print Assumptions C05_vec_cv_nonvacuous.
+Print Assumptions C05_mp_nonvacuous.
